@@ -482,6 +482,67 @@ var ops = []opSpec{
 		},
 	},
 	{name: "melt_success", prep: meltPrep([]lnmodel.PayAnswer{lnmodel.PaySuccess}, 0), run: meltRun, check: meltCheck},
+	{
+		// the adversarial follow-up itself under faults: a melt of inputs that an earlier swap has already spent
+		name: "melt_of_spent_inputs",
+		prep: func(t *testing.T, e *env) {
+			if err := trySwap(e, e.inputs); err != nil {
+				t.Fatalf("setup swap: %v", err)
+			}
+			meltPrep([]lnmodel.PayAnswer{lnmodel.PaySuccess}, 0)(t, e)
+		},
+		run: meltRun,
+		check: func(t *testing.T, e *env, delivered bool, r result, rep func(string, string, ...any)) {
+			w := e.w
+			q := e.meltQ
+			if delivered && r.err == nil {
+				rep("melt_of_spent_inputs_accepted", "state %v", r.resp)
+			}
+			for i := 0; i < 2; i++ {
+				w.Mint.GetMeltQuoteState(ctx(), q.ID)
+			}
+			if p := w.LN.Payment(q.Hash); p != nil && p.Truth != lnmodel.TruthNone {
+				rep("payment_made_for_spent_inputs", "the invoice of a melt whose inputs were already spent was paid (payment %s)", p.Truth)
+			}
+			if row, err := w.Inner().GetMeltQuote(q.ID); err == nil && row.State == nut05.Paid {
+				rep("quote_paid_by_spent_inputs", "quote %s", row.State)
+			}
+			var ys []string
+			for _, in := range e.inputs {
+				_, y := world.Y(in.Secret)
+				ys = append(ys, y)
+			}
+			if st, err := w.Mint.ProofsStateCheck(ys); err == nil {
+				for _, x := range st {
+					if x.State.String() != "SPENT" {
+						rep("durability:spent_proof_no_longer_spent", "%s is %s after a refused melt", x.Y, x.State)
+					}
+				}
+			}
+		},
+	},
+	{
+		name: "swap_of_spent_inputs",
+		prep: func(t *testing.T, e *env) {
+			if err := trySwap(e, e.inputs); err != nil {
+				t.Fatalf("setup swap: %v", err)
+			}
+			fee := e.w.FeeFor(e.inputs)
+			e.outs = e.w.MakeOutputs(world.Split(e.inVal-fee), e.w.ActiveID)
+		},
+		run: func(e *env) result {
+			s, err := e.w.Mint.Swap(e.inputs, world.Msgs(e.outs))
+			return result{s, err}
+		},
+		check: func(t *testing.T, e *env, delivered bool, r result, rep func(string, string, ...any)) {
+			if delivered && r.err == nil {
+				rep("swap_of_spent_inputs_accepted", "")
+			}
+			if n, _ := restoreCount(e, e.outs); n > 0 {
+				rep("signatures_for_spent_inputs_restorable", "%d of %d outputs of the refused re-spend are restorable", n, len(e.outs))
+			}
+		},
+	},
 	{name: "melt_pending_then_success", prep: func(t *testing.T, e *env) {
 		meltPrep([]lnmodel.PayAnswer{lnmodel.PayPending}, 0)(t, e)
 		e.resolveTo = true
